@@ -3,7 +3,8 @@
  *   find_value_short: rest of the word after the option letter if there is one, else the next word
  *   is_boolean_value: TRUE exactly for a non-empty value that spells one of the eight boolean words
  *   is_valid_option : TRUE only for "-x" / "--name" words that the lookups find; FALSE for a word that does
- *                     not start with '-' WITHOUT counting a bad option
+ *                     not start with '-' WITHOUT counting a bad option; unit .dash: the lone "-" (looked up as
+ *                     the NUL letter, never found: FALSE and one bad option)
  * All loop-free; strings have arbitrary (ghost) length. */
 
 /*@unit
@@ -125,12 +126,12 @@ void harness(void)
 
 #ifdef U_ISVALID
 /* contracts of the two callees (proved in lookup.c) */
-static spif_int32_t find_short_option(char opt) CONTRACT_find_short_option(opt != 0);
+static spif_int32_t find_short_option(char opt) CONTRACT_find_short_option(1);
 static spif_int32_t find_long_option(spif_charptr_t opt) CONTRACT_find_long_option;
 /* the word: vg_n3 characters; registered string 1 is its tail after "--" (length vg_n1 = vg_n3 - 2) */
 #define W_LONG_MATCH_K (vg_cmp == 0 && vg_n2 <= vg_n1 && (opt[2 + vg_n2] == '=' || opt[2 + vg_n2] == 0))
 static spif_bool_t is_valid_option(spif_charptr_t opt)
-__CPROVER_requires(OPTTAB_INV && OPT_HELP_INV && OPT_BAD_ROOM)
+__CPROVER_requires(OPTTAB_INV && OPT_HELP_INV)
 __CPROVER_requires(VOPT_STR_OK(opt, vg_n3) && (vg_n3 < 1 || opt[0] != 0) && (vg_n3 < 2 || opt[1] != 0))
 __CPROVER_requires(vg_n3 < 2 || (vg_n1 == vg_n3 - 2 && vg_p1 == (const char *) opt + 2))
 __CPROVER_requires(!((long) vg_k < OPT_N) || (VOPT_STR_OK(vg_p2, vg_n2) && vg_p2 == (const char *) OPT_TAB[vg_k].long_opt))
